@@ -94,7 +94,10 @@ def agree(model, impl, codec="latin-1", path=""):
             want = bytes.fromhex(model["s"])
             if not isinstance(impl, str):
                 return bad("expected str")
-            if codec == "latin-1":
+            use = codec
+            if codec == "bypath":  # device state: regulator data strings are UTF-8, module versions latin-1
+                use = "utf-8" if "regdata" in path else "latin-1"
+            if use == "latin-1":
                 ok = impl == want.decode("latin-1")
             else:
                 ok = impl == want.decode("utf-8", "replace")
